@@ -746,9 +746,9 @@ example : (do
   the repaired filter** too (C06-doctype-markup, `no_gt_in_declarations`).  Since wave 4 the theorem
   therefore has NO hypothesis on the PI / DOCTYPE leaves of the input (`DtOkForest` is gone).
   `TokSafeP` is `TokSafe` except that PI and DOCTYPE tokens may occur (the property forbids
-  comments, not these).  `_partial` (what is still outside): HTML method only (XHTML:
-  `xhtml_reparse_prolog_safe_partial`), `strip_whitespace=False`, no doctype option, no XML
-  declaration / namespace leaves, text leaves not Markup. -/
+  comments, not these).  XML declaration leaves are inside too (the HTML serializer writes none).
+  `_partial` (what is still outside): HTML method only (XHTML: `xhtml_reparse_prolog_safe_partial`),
+  `strip_whitespace=False`, no doctype option, no namespace leaves, text leaves not Markup. -/
 
 theorem html_reparse_prolog_safe_partial {cfg : Cfg} (hm : CfgMarkupOk cfg) (hcss : CssNamesPlain cfg)
     (cache dropd : Bool) (ns : List Node) (hok : okList ns = true) (hpl : prologForest ns = true) :
@@ -791,8 +791,10 @@ example : prologForest [.leaf (.doctype ['a', '"', 'b'] none (some ['x', '.', 'd
       .leaf (.pi ['x'] ['a', '>', '<', 's'])],
     .leaf (.doctype ['h', 't', 'm', 'l'] none (some ['x', '\'', '>', '<', 's', '>']))] = true := by decide
 example : Genshi.Reader.dtScan false none (Genshi.Reader.doctypeContent ['a', '"', 'b'] none none) = false := by decide
+example : prologForest [.leaf (.xmlDecl ['1', '.', '0'] none (-1)), .leaf (.doctype ['a', '"', 'b'] none none),
+    .elem divTag [] [.leaf (.text ['"', 'x'] false)]] = true := by decide
 example : (do
-    let o ← (sanitize Cfg.default [.doctype ['a', '"', 'b'] none none, .start divTag [],
+    let o ← (sanitize Cfg.default [.xmlDecl ['1', '.', '0'] none (-1), .doctype ['a', '"', 'b'] none none, .start divTag [],
       .text ['"', 'x'] false, .end_ divTag]).toOption
     let txt ← Genshi.Output.render .html { strip := false, cache := true, doctype := none, dropXmlDecl := true } o
     Genshi.Reader.tokens false txt) =
@@ -818,9 +820,10 @@ example : (do
   (`forestAttrVals`, finding C08-attr-ws) and well-quoted emitted DOCTYPE literals
   (`forestDtQuoted` = C08's `dtScan true`: an XML tokenizer is quote-aware inside a DOCTYPE; a
   name like `a"b`, which no XML parser yields, would make it read on to the next quote —
-  `xhtml_doctype_quote_witness` below).  Any `drop_xml_decl`.  `_partial`: `strip_whitespace=False`,
-  no doctype option, no XML declaration / namespace leaves, text leaves not Markup, tokenizer
-  level (before namespace resolution). -/
+  `xhtml_doctype_quote_witness` below); with them goes the analogous condition on XML declaration
+  leaves (no `?>` in the literal `xml version="…" …`, only relevant with `drop_xml_decl=False`).  Any
+  `drop_xml_decl`.  `_partial`: `strip_whitespace=False`, no doctype option, no namespace leaves,
+  text leaves not Markup, tokenizer level (before namespace resolution). -/
 
 theorem xhtml_reparse_prolog_safe_partial {cfg : Cfg} (hm : CfgMarkupOk cfg) (hcss : CssNamesPlain cfg)
     (cache dropd : Bool) (ns : List Node) (hok : okList ns = true) (hpl : prologForest ns = true) :
@@ -864,17 +867,19 @@ example : prologForest [.leaf (.doctype ['h', 't', 'm', 'l'] none (some ['x', '.
     .elem divTag [] [.leaf (.pi ['p', 'h', 'p'] ['e', 'c', 'h', 'o']), .leaf .startCdata, .leaf (.text ['a', '<'] false),
       .leaf .endCdata, .leaf (.pi ['x'] ['a', '>', '<', 's'])],
     .leaf (.doctype ['h', 't', 'm', 'l'] none (some ['x', '\'', '>', '<', 's', '>']))] = true := by decide
-example : forestAttrVals [.leaf (.doctype ['h', 't', 'm', 'l'] none (some ['x', '.', 'd', 't', 'd'])),
+example : forestAttrVals [.leaf (.xmlDecl ['1', '.', '0'] none (-1)), .leaf (.doctype ['h', 't', 'm', 'l'] none (some ['x', '.', 'd', 't', 'd'])),
       .elem divTag [] [.leaf (.pi ['p', 'h', 'p'] ['e', 'c', 'h', 'o']), .leaf (.text ['a', '<'] false)]] = true ∧
-    forestDtQuoted [.leaf (.doctype ['h', 't', 'm', 'l'] none (some ['x', '.', 'd', 't', 'd'])),
+    forestDtQuoted [.leaf (.xmlDecl ['1', '.', '0'] none (-1)), .leaf (.doctype ['h', 't', 'm', 'l'] none (some ['x', '.', 'd', 't', 'd'])),
       .elem divTag [] [.leaf (.pi ['p', 'h', 'p'] ['e', 'c', 'h', 'o']), .leaf (.text ['a', '<'] false)]] = true := by decide
 example : (do
-    let o ← (sanitize Cfg.default [.doctype ['h', 't', 'm', 'l'] none (some ['x', '.', 'd', 't', 'd']), .start divTag [],
+    let o ← (sanitize Cfg.default [.xmlDecl ['1', '.', '0'] none (-1),
+      .doctype ['h', 't', 'm', 'l'] none (some ['x', '.', 'd', 't', 'd']), .start divTag [],
       .pi ['p', 'h', 'p'] ['e', 'c', 'h', 'o'], .startCdata, .text ['a', '<'] false, .endCdata, .pi ['x'] ['a', '>', '<', 's'],
       .end_ divTag, .doctype ['h', 't', 'm', 'l'] none (some ['x', '\'', '>', '<', 's', '>'])]).toOption
     let txt ← Genshi.Output.render .xhtml { strip := false, cache := true, doctype := none, dropXmlDecl := false } o
     Genshi.Reader.tokens true txt) =
-    some [.doctype ['h', 't', 'm', 'l', ' ', 'S', 'Y', 'S', 'T', 'E', 'M', ' ', '"', 'x', '.', 'd', 't', 'd', '"'], .text ['\n'],
+    some [.pi ['x', 'm', 'l', ' ', 'v', 'e', 'r', 's', 'i', 'o', 'n', '=', '"', '1', '.', '0', '"'], .text ['\n'],
+      .doctype ['h', 't', 'm', 'l', ' ', 'S', 'Y', 'S', 'T', 'E', 'M', ' ', '"', 'x', '.', 'd', 't', 'd', '"'], .text ['\n'],
       .start ['d', 'i', 'v'] [] false, .pi ['p', 'h', 'p', ' ', 'e', 'c', 'h', 'o'], .text ['a', '<'], .end_ ['d', 'i', 'v']] := by
   decide +kernel
 
